@@ -886,7 +886,7 @@ func checkRegistryKeys(p *core.Program, r *core.Report) {
 			r.Check(okKey, "registry-key/"+fname(fn)+"/"+strings.TrimPrefix(name, "sync.Map."), "every access to the adapter registry is keyed by the adapter's Address() (or by the key a Range over the registry handed out)", p.Pos(c.Pos()), "", why)
 		})
 	}
-	r.Min("adapter registry accesses", 5)
+	r.Min("adapter registry accesses", 3)
 	r.Count("adapter registry accesses", n)
 }
 
